@@ -1,18 +1,168 @@
 import Ruint.Model.Div
-import Ruint.Lemmas.Div.Full
-import Ruint.Lemmas.Div.NLoop
-import Ruint.Lemmas.Div.Div2x1
-/-! C14 property theorems (placeholder header; filled below). -/
+import Ruint.Lemmas.Div.Dispatch
+import Ruint.Lemmas.Div.NArr
+/-!
+# C14 — limb-slice division kernels meet their documented contracts
+
+Property theorems only. Every theorem is about the functions of `Ruint/Model/Div.lean`
+(`Ruint.Div.div`, `divNxm`, `divNxmNormalized`, `divNx1`, `divNx1Normalized`, `divNx2`,
+`divNx2Normalized`, `div2x1w`, `div3x2w`, `reciprocal`, `reciprocal2`) — the functions the driver
+`Drv/C14.lean` executes against the real `ruint::algorithms::div::*`. Slices are little-endian lists of
+words (`AllLt`: every limb `< 2^64`), `val` is the value in base `2^64`, `none` is a panic.
+
+All statements are full strength: every slice length, every limb value, every normalised divisor; no
+bound, no `_partial`. Hypotheses are the documented conditions of use (doc comments + `debug_assert`s),
+except `div_nxm_normalized`, whose documented conditions are NOT sufficient (known finding
+`div_nxm_normalized_doc_precondition`): `div_nxm_normalized_spec` carries the real precondition and
+`div_nxm_normalized_doc_insufficient` is the kernel-checked witness.
+The reciprocal theorem depends on the table extracted from the Rust source on every run
+(`Ruint/Gen/RecipTable.lean`) only through `Ruint.Div.Recip.table_facts` (`Ruint/Gen/RecipTableFacts.lean`).
+-/
 set_option autoImplicit false
 namespace Ruint.C14
 open Ruint.Div
 
-/-- `reciprocal` returns `⌊(2^128 − 1)/d⌋ − 2^64` for every normalised `d`. -/
+/-! ## `algorithms::div` -/
+
+/-- **Zero divisor** (every limb zero, or the empty slice): `div` panics ("Divisor is zero"). -/
+theorem div_zero_divisor_panics (num ds : List ℕ) (hnum : AllLt num) (hds : AllLt ds)
+    (h0 : val ds = 0) : div num ds = none :=
+  (div_spec num ds hnum hds).1 h0
+
+/-- **`div` meets its contract** for every combination of slice lengths and leading-zero padding
+    (numerator shorter or longer than the divisor): with a non-zero divisor it does not panic, leaves
+    `⌊N/D⌋` in the numerator slice and `N mod D` in the divisor slice (same lengths as before, limbs are
+    words). `N = q·D + r ∧ r < D` is the corollary `div_euclid`. -/
+theorem div_contract (num ds : List ℕ) (hnum : AllLt num) (hds : AllLt ds) (hd : val ds ≠ 0) :
+    ∃ q r, div num ds = some (q, r) ∧ val q = val num / val ds ∧ val r = val num % val ds
+      ∧ q.length = num.length ∧ r.length = ds.length ∧ AllLt q ∧ AllLt r :=
+  (div_spec num ds hnum hds).2 hd
+
+/-- the Euclidean form of the contract: `numerator = quotient·divisor + remainder`, `remainder < divisor`. -/
+theorem div_euclid (num ds : List ℕ) (hnum : AllLt num) (hds : AllLt ds) (hd : val ds ≠ 0) :
+    ∃ q r, div num ds = some (q, r) ∧ val num = val q * val ds + val r ∧ val r < val ds := by
+  obtain ⟨q, r, h, hq, hr, _⟩ := div_contract num ds hnum hds hd
+  refine ⟨q, r, h, ?_, ?_⟩
+  · rw [hq, hr, Nat.mul_comm]; exact (Nat.div_add_mod _ _).symm
+  · rw [hr]; exact Nat.mod_lt _ (Nat.pos_of_ne_zero hd)
+
+/-! ## the specialised kernels return the same quotient and remainder (`⌊N/D⌋`, `N mod D`) -/
+
+/-- `div_nx1(limbs, d)`, any non-zero word divisor, normalised or not (the documented "highest limb of
+    the numerator non-zero" is not needed): quotient in place, remainder returned. -/
+theorem div_nx1_spec (l : List ℕ) (d : ℕ) (hl : AllLt l) (h1 : 1 ≤ d) (h2 : d < 2 ^ 64) :
+    val (divNx1 l d).1 = val l / d ∧ (divNx1 l d).2 = val l % d
+    ∧ (divNx1 l d).1.length = l.length ∧ AllLt (divNx1 l d).1 :=
+  divNx1_spec l d hl h1 h2
+
+/-- `div_nx1_normalized(u, d)`, `d ≥ 2^63`. -/
+theorem div_nx1_normalized_spec (l : List ℕ) (d : ℕ) (hl : AllLt l) (h1 : 2 ^ 63 ≤ d) (h2 : d < 2 ^ 64) :
+    val (divNx1Normalized l d).1 = val l / d ∧ (divNx1Normalized l d).2 = val l % d
+    ∧ (divNx1Normalized l d).1.length = l.length ∧ AllLt (divNx1Normalized l d).1 :=
+  divNx1Normalized_spec l d hl h1 h2
+
+/-- `div_nx2(limbs, d)`, any `d ∈ [2^64, 2^128)`, normalised or not. -/
+theorem div_nx2_spec (l : List ℕ) (d : ℕ) (hl : AllLt l) (h1 : 2 ^ 64 ≤ d) (h2 : d < 2 ^ 128) :
+    val (divNx2 l d).1 = val l / d ∧ (divNx2 l d).2 = val l % d
+    ∧ (divNx2 l d).1.length = l.length ∧ AllLt (divNx2 l d).1 :=
+  divNx2_spec l d hl h1 h2
+
+/-- `div_nx2_normalized(u, d)`, `d ∈ [2^127, 2^128)`. -/
+theorem div_nx2_normalized_spec (l : List ℕ) (d : ℕ) (hl : AllLt l) (h1 : 2 ^ 127 ≤ d) (h2 : d < 2 ^ 128) :
+    val (divNx2Normalized l d).1 = val l / d ∧ (divNx2Normalized l d).2 = val l % d
+    ∧ (divNx2Normalized l d).1.length = l.length ∧ AllLt (divNx2Normalized l d).1 :=
+  divNx2Normalized_spec l d hl h1 h2
+
+/-- `div_nxm(numerator, divisor)` under exactly its documented conditions of use (divisor of at least
+    three limbs with non-zero top limb, numerator at least as long): Knuth D with on-the-fly
+    normalisation, all arms (zero digit, `shift = 0`, `shift > 0`, add-back, forced digit, `q_high`),
+    in-place layout: quotient zero padded to `|numerator|` limbs in `numerator`, remainder in `divisor`. -/
+theorem div_nxm_spec (num ds : List ℕ) (hnum : AllLt num) (hds : AllLt ds)
+    (h3 : 3 ≤ ds.length) (hlen : ds.length ≤ num.length) (htop : 1 ≤ ds.getD (ds.length - 1) 0) :
+    val (divNxm num ds).1 = val num / val ds ∧ val (divNxm num ds).2 = val num % val ds
+    ∧ (divNxm num ds).1.length = num.length ∧ (divNxm num ds).2.length = ds.length
+    ∧ AllLt (divNxm num ds).1 ∧ AllLt (divNxm num ds).2 :=
+  divNxm_spec num ds hnum hds h3 hlen htop
+
+/-- `div_nxm_normalized(numerator, divisor)` under its REAL precondition — normalised divisor of at least two
+    limbs, `|numerator| > |divisor|`, and the top `|divisor|` numerator limbs below the divisor: no panic
+    (the `debug_assert!(n21 <= d)` cannot fire), remainder in the low `n` limbs, quotient in the limbs above.
+
+    Full statement as documented (hypotheses `2 ≤ |ds|`, `|ds| ≤ |num|`, top bit of `ds` set only) is FALSE:
+    see `div_nxm_normalized_doc_insufficient`. -/
+theorem div_nxm_normalized_spec (num ds : List ℕ) (hnum : AllLt num) (hds : AllLt ds)
+    (h2 : 2 ≤ ds.length) (hlen : ds.length + 1 ≤ num.length)
+    (htop : 2 ^ 63 ≤ ds.getD (ds.length - 1) 0)
+    (hreal : val (num.drop (num.length - ds.length)) < val ds) :
+    ∃ q r, divNxmNormalized num ds = some (r ++ q)
+      ∧ val q = val num / val ds ∧ val r = val num % val ds
+      ∧ r.length = ds.length ∧ q.length = num.length - ds.length ∧ AllLt q ∧ AllLt r := by
+  have hW : W = 2 ^ 64 := rfl
+  have h1lt : ds.getD (ds.length - 1) 0 < 2 ^ 64 := KFull.getD_lt ds _ hds (by omega)
+  have h0lt : ds.getD (ds.length - 2) 0 < 2 ^ 64 := KFull.getD_lt ds _ hds (by omega)
+  obtain ⟨d, hd⟩ : ∃ d, d = ds.getD (ds.length - 1) 0 * W + ds.getD (ds.length - 2) 0 := ⟨_, rfl⟩
+  have hd1 : 2 ^ 127 ≤ d := by rw [hd, hW]; omega
+  have hd2 : d < 2 ^ 128 := by rw [hd, hW]; omega
+  have hv := reciprocal2_eq d hd1 hd2
+  obtain ⟨q, r, k1, k2, k3, k4, k5, k6, k7⟩ := KN.divNxmNormArr_spec W num ds (reciprocal2 d) W_two hnum hds h2 hlen
+    (by rw [hW]; omega) (by rw [← hd]; exact hv) (by rw [val_W, val_W]; exact hreal)
+  rw [val_W, val_W, val_W, val_W] at k2
+  rw [val_W, val_W] at k3
+  obtain ⟨e1, e2⟩ := divmod_unique _ _ _ _ k2 k3
+  refine ⟨q, r, ?_, e1, e2, k4, k5, k6, k7⟩
+  unfold divNxmNormalized
+  simp only []
+  rw [← hd]; exact k1
+
+/-- WITNESS that the documented conditions of `div_nxm_normalized` are insufficient (DESIGN §9):
+    (i) `div_nxm_normalized(&mut [1, 2], &[0, 1 << 63])` — two limbs each, top bit set, numerator as long as
+    the divisor, everything the doc comment asks for — panics; (ii) with `|num| > |div|` but the top limbs
+    equal to the divisor (`[5, 0, 2^63]` by `[0, 2^63]`, true quotient `2^64`) the quotient left in the
+    array is wrong. Both by kernel evaluation of the model. -/
+theorem div_nxm_normalized_doc_insufficient :
+    divNxmNormalized [1, 2] [0, 2 ^ 63] = none
+    ∧ (divNxmNormalized [5, 0, 2 ^ 63] [0, 2 ^ 63]).map (fun o => val (o.drop 2))
+        ≠ some (val [5, 0, 2 ^ 63] / val [0, 2 ^ 63]) := by
+  constructor
+  · decide +kernel
+  · decide +kernel
+
+/-- `div_2x1(u, d, v)` with `d` normalised, `u < d·2^64`, `v = reciprocal(d)`. -/
+theorem div_2x1_spec (u d : ℕ) (h1 : 2 ^ 63 ≤ d) (h2 : d < 2 ^ 64) (hu : u / 2 ^ 64 < d) :
+    div2x1w u d (reciprocal d) = (u / d, u % d) :=
+  div2x1w_spec u d h1 h2 hu
+
+/-- `div_3x2(u21, u0, d, v)` with `d ∈ [2^127, 2^128)`, `u21 < d`, `v = reciprocal_2(d)`. -/
+theorem div_3x2_spec (u21 u0 d : ℕ) (h1 : 2 ^ 127 ≤ d) (h2 : d < 2 ^ 128) (hu : u21 < d) (hu0 : u0 < 2 ^ 64) :
+    div3x2w u21 u0 d (reciprocal2 d) = ((u21 * 2 ^ 64 + u0) / d, (u21 * 2 ^ 64 + u0) % d) :=
+  div3x2w_spec u21 u0 d h1 h2 hu hu0
+
+/-! ## reciprocals -/
+
+/-- `reciprocal(d) = ⌊(2^128 − 1)/d⌋ − 2^64` for EVERY normalised `d` (all `2^63` of them): table-seeded
+    Newton iteration with `Wrapping<u64>` arithmetic; the table is the one in the Rust source. -/
 theorem reciprocal_spec (d : ℕ) (h1 : 2 ^ 63 ≤ d) (h2 : d < 2 ^ 64) :
     reciprocal d = (2 ^ 128 - 1) / d - 2 ^ 64 := by
-  unfold reciprocal
-  rw [Recip.recip_spec d h1 h2]
-  unfold Recip.recipSpec Recip.M
+  rw [reciprocal_eq d h1 h2]
+  unfold recipSpec W
   norm_num
+
+/-- `reciprocal_2(d) = ⌊(2^192 − 1)/d⌋ − 2^64` for every normalised two-word `d`. -/
+theorem reciprocal_2_spec (d : ℕ) (h1 : 2 ^ 127 ≤ d) (h2 : d < 2 ^ 128) :
+    reciprocal2 d = (2 ^ 192 - 1) / d - 2 ^ 64 := by
+  rw [reciprocal2_eq d h1 h2]
+  unfold recip2Spec W
+  norm_num
+
+/-! ## non-vacuity: concrete inputs meeting each hypothesis set, evaluated through the model -/
+
+example : div [7, 0, 5, 0] [3, 1, 0] = some ([0xfffffffffffffff1, 4, 0, 0], [52, 0, 0]) := by decide +kernel
+example : div [1, 2] [0, 0] = none := by decide +kernel
+example : div [7] [1, 2, 0, 0] = some ([0], [7, 0, 0, 0]) := by decide +kernel
+example : (divNxm [0, 0, 0, 1] [1, 1, 1]).1.length = 4 := by decide +kernel
+example : divNxmNormalized [1, 2, 3] [0, 2 ^ 63] = some [1, 2, 6] := by decide +kernel
+example : reciprocal (2 ^ 63) = 2 ^ 64 - 1 := by decide +kernel
+example : reciprocal2 (2 ^ 128 - 1) = 0 := by decide +kernel
+example : divNx1 [5, 7] 3 = ([0x5555555555555557, 2], 0) := by decide +kernel
 
 end Ruint.C14
